@@ -32,6 +32,10 @@ type c10Case struct {
 	// the answer); then the peer logs on again with number expected+D.
 	In string `json:"in,omitempty"`
 	D  int    `json:"d,omitempty"`
+	// Restart: before that last Logon the peer starts its numbering over (a Logon numbered 1, two more
+	// messages, a Logout): the expected number is again the one after the last message received, not the
+	// highest ever seen.
+	Restart bool `json:"restart,omitempty"`
 }
 
 func gapOracle(stored, seq int, outs []outMsg, logged bool) (string, string) {
@@ -107,6 +111,19 @@ func c10History(c c10Case) (string, string) {
 	}
 	if w.ctxDone {
 		return "setup:session-ended", ""
+	}
+	if c.Restart {
+		w.nextIn = 1
+		w.in(w.msg("A", "98=0", "108="+strconv.Itoa(hb)))
+		if !w.s.IsLogged() {
+			return "setup:restart-logon-not-accepted", outsStr(w.outs)
+		}
+		w.in(w.msg("D", "11=after-restart"))
+		w.in(w.msg("0"))
+		w.in(w.msg("5"))
+		if w.s.IsLogged() {
+			return "setup:still-logged-after-logout", ""
+		}
 	}
 	stored := w.nextIn - 1 // every message of the history was received
 	seq := stored + 1 + c.D
@@ -263,8 +280,8 @@ func runC10(R *vlib.Out) {
 		R.Eval()
 		sig, d, steps := execBody(func() (string, string) { return c10Run(c) })
 		R.Transitions += int64(steps)
-		R.State(fmt.Sprintf("%s/%s/%v/%v/%s/%d", c.Role, c.Pattern, c.Reqs, c.Gap, c.In, c.D))
-		R.ClassU(fmt.Sprintf("%s/%s/%v/%v/%s/%d", c.Role, c.Pattern, c.Reqs, c.Gap, c.In, c.D))
+		R.State(fmt.Sprintf("%s/%s/%v/%v/%s/%d/%v", c.Role, c.Pattern, c.Reqs, c.Gap, c.In, c.D, c.Restart))
+		R.ClassU(fmt.Sprintf("%s/%s/%v/%v/%s/%d/%v", c.Role, c.Pattern, c.Reqs, c.Gap, c.In, c.D, c.Restart))
 		R.Sample(5, c)
 		if sig != "" {
 			R.Violate(sig, fmt.Sprintf("%+v: %s", c, d), c)
@@ -308,6 +325,9 @@ func runC10(R *vlib.Out) {
 		for _, in := range ins {
 			for _, d := range []int{0, 1, 3} {
 				if !try(c10Case{Role: role, In: in, D: d}) {
+					return
+				}
+				if strings.Count(in, "i")+strings.Count(in, "h") >= 1 && !try(c10Case{Role: role, In: in, D: d, Restart: true}) {
 					return
 				}
 			}
